@@ -291,6 +291,18 @@ ADDENDA_R5 = {
  "C17": "All entry points on inputs of 2**20 bytes with seeks beyond the end, and through window streams at positions behind 2**32 / 2**63.",
  "C19": "If/IfThenElse over float comparisons with NaN, infinities, signed zero among the inputs.",
 }
+ADDENDA_R6 = {
+ "C01": "Every non-seeking T1/T2 term also inside the streaming implementation of the bit/byte transforms (unsized content).",
+ "C02": "Tier-1 terms inside streaming bit/byte transforms.",
+ "C03": "Tier-1 terms inside streaming bit/byte transforms.",
+ "C05": "Transformed/Restreamed with every pair of user-given amounts and the adapter classes, judged by measured advance.",
+ "C06": "A raising stream operation must end in StreamError for every term without an error-absorbing part, lenient readers included; tier-1 terms inside streaming transforms.",
+ "C07": "Context expressions as the selector of Union and FocusedSeq (evaluated in the scope the composite opens, own members shadowing).",
+ "C12": "A zoo of enum classes (zero, negative, aliased, single, composite flag members) for the class-vs-keywords laws.",
+ "C17": "Keyword context through every entry point for every context-parameter slot.",
+}
+for _k, _v in ADDENDA_R6.items():
+    ADDENDA_R5[_k] = (ADDENDA_R5[_k] + " " if _k in ADDENDA_R5 else "") + _v
 for _k, _v in ADDENDA_R5.items():
     ADDENDA_R4[_k] = (ADDENDA_R4[_k] + " " if _k in ADDENDA_R4 else "") + _v
 for _k, _v in ADDENDA_R4.items():
